@@ -42,10 +42,15 @@ FullFields(k) == { [DefField EXCEPT !.ord = t, !.rank = r] :
                      t \in Treatments, r \in (IF k = "struct" THEN RankSet ELSE EnumRankSet) \cup {NoRank} }
 PlainFields == { [DefField EXCEPT !.ord = t] : t \in {Own, Method} }
 
+\* PairMode: the instance for what one variant leaves behind for the next -- an enum whose variants may *all* be
+\* rich (up to RichFields fields each, every treatment, no explicit ranks)
+CONSTANT PairMode
+PairFields == { [DefField EXCEPT !.ord = t] : t \in Treatments }
 MCFieldSet(c) ==
   IF NVariants(c) = 0 THEN {}
   ELSE LET lv == Last(c.variants) IN
-    IF EarlierRich(c)
+    IF PairMode THEN (IF Len(lv.fields) < EnumRichFields THEN PairFields ELSE {})
+    ELSE IF EarlierRich(c)
     THEN IF Len(lv.fields) < 1 THEN WithRef(c, PlainFields) ELSE {}
     ELSE IF Len(lv.fields) < (IF c.kind = "struct" THEN RichFields ELSE EnumRichFields) THEN WithRef(c, FullFields(c.kind)) ELSE {}
 
